@@ -41,7 +41,11 @@ def lockstep_clause(model, rep, funcs):
                                 "return self.__class__($pos, Rotation($quat), self._features[$sel])"], b)
         # every constructor call gets the selected positions and rotations
         ctor = [c for c in calls_in(f) if norm_src(c.func) == "self.__class__"]
-        ctor_ok = bool(ok) and len(ctor) == M.count("self.__class__($pos, Rotation($quat), ...)", b)
+        forms = ["self.__class__($pos, Rotation($quat))", "self.__class__($pos, Rotation($quat), self._features.filter($sel))",
+                 "self.__class__($pos, Rotation($quat), self._features[$sel])"]
+        ctor_ok = bool(ok) and len(ctor) == sum(M.count(fm, b) for fm in forms)
+        if ok and not ctor_ok:
+            why = "a constructor call in subset does not take positions, rotations and features through the same selector"
         rep.ob("LOCK", f.anchor, "subset applies one selector to positions, quaternions and features (index or boolean filter) and rebuilds from exactly those",
                bool(ok and ctor_ok), why or f"constructor calls built from the selected rows: {ctor_ok}", node=f.node, fn=f,
                clause="1 lock-step", stmt="def subset")
@@ -185,6 +189,22 @@ def guards_clause(model, rep, funcs):
                 ok = cfg.must_pass_through(n, is_len_guard)
                 rep.ob("GUARD", f.anchor, "a feature table is stored only after its length was compared with the number of positions (mismatch raises)", ok,
                        f"`{norm_src(n.node)}` reachable without the length guard", node=n.node, fn=f, clause="3 guards")
+    f = funcs.get(MC + "features@setter")
+    if f is not None:
+        # the only inputs stored as "no features" are None and the table without any column
+        MS = Matcher(f)
+        allowed = ["value is None", "$df.shape == (0, 0)", "len($df.columns) == 0", "$df.width == 0"]
+        drops = []
+        for n in ast.walk(f.node):
+            if isinstance(n, ast.If) and any(isinstance(x, ast.Assign) and norm_src(x.targets[0]) == "self._features" and isinstance(x.value, ast.Constant) and
+                                             x.value.value is None for x in n.body):
+                drops.append(n)
+        rep.instance("GUARD", f.loc())
+        badd = [n for n in drops if not any(MS.find(pat, within=n.test) for pat in allowed)]
+        rep.ob("GUARD", f.anchor, "a feature table is discarded (stored as None) only when it is None or has no columns at all; every other table goes through the length check",
+               bool(drops) and not badd, "; ".join(f"`if {norm_src(n.test)}` drops the table and skips the length check (a 0-row table with columns is accepted for N > 0 "
+                                                  f"molecules and loses its columns)" for n in badd), node=(badd[0] if badd else f.node), fn=f, clause="3 guards",
+               stmt="features setter bypass")
     f = funcs.get(MC + "__init__")
     if f is not None:
         s = norm_src(f.node)
